@@ -31,6 +31,7 @@ void register_fmt(std::vector<Reg>&);
 void register_query(std::vector<Reg>&);
 void register_schema(std::vector<Reg>&);
 void register_stateful(std::vector<Reg>&);
+void register_typed(std::vector<Reg>&);
 
 template <class S> Scenario* maker() { return new S(); }
 
